@@ -642,6 +642,10 @@ func (p *Path) convert(v Value, from, to types.Type) Value {
 		}
 		s := v.(StrV)
 		if b, ok := sl.Elem().Underlying().(*types.Basic); ok && b.Kind() == types.Uint8 {
+			if s.parts != nil {
+				cp := s
+				return SliceV{lazy: &cp, len: 1, cap: 1}
+			}
 			bs := strBytes(s)
 			vals := make([]Value, len(bs))
 			for i, t := range bs {
@@ -662,6 +666,9 @@ func (p *Path) convert(v Value, from, to types.Type) Value {
 		if sl, ok := fu.(*types.Slice); ok {
 			s := v.(SliceV)
 			if b, ok := sl.Elem().Underlying().(*types.Basic); ok && b.Kind() == types.Uint8 {
+				if s.lazy != nil {
+					return *s.lazy
+				}
 				bs := make([]*Term, s.len)
 				for i, e := range s.elems() {
 					bs[i] = e.(*Term)
